@@ -13,6 +13,9 @@ CHECKS = {
  "C03": dict(tech="TLA+ L1 language machine: possible-worlds order semantics (ties, NULL placement) in Prql.tla; sort/take-biased PrqlMC generation; row SEQUENCES validated by TLC (PrqlTrace)",
     text="as C01, with the observation compared as a sequence: the returned order must be a linearisation the sort in effect admits (tie groups matched as bags), take must keep exactly the positions of some admissible linearisation",
     ref="DESIGN.md section 4 C03"),
+ "C04": dict(tech="TLA+ L1 language machine: window-frame semantics (partition, order, rows/range frames, rolling/expanding, lag/lead/first/last/rank*) in Prql.tla; slot-model PrqlMC generation partition x sort x frame x function x placement; executions validated by TLC (PrqlTrace)",
+    text="bounded-exhaustive over partition keys x sort keys x frame kinds/bounds x the 12 window-capable functions x placement (derive/select/filter/sort, before/after a split), each replayed through prqlc+SQLite and validated against the specification's per-row window value",
+    ref="DESIGN.md section 4 C04"),
  "C05": dict(tech="TLA+ L1 language machine: frame (names, count, order) tracked by Prql.tla incl. the resolver's group ordering rule; prepared-statement column names + RQ columns validated by TLC (PrqlTrace)",
     text="as C01; the verdict is on the result's column names/count/order against the specification's frame and the RQ's declared columns",
     ref="DESIGN.md section 4 C05"),
